@@ -67,66 +67,19 @@ CLAIMED = {
         technique="Coq proof (per-class record lemma + generic history induction over a synchronisation invariant) + reference-sender search + byte-exact correspondence",
         design="3 C01"),
     "C02": dict(
-        text="Proof (partial): Coq theorems on the output side of the QUIC path -- C02_nothing_lost_or_added (the payloads written are, concatenated, exactly the data "
-             "of the collected frames in order), C02_per_direction (each direction receives exactly its own frames' data), C02_one_output_per_input_datagram (capture times "
-             "pairwise distinct: the non-empty output datagrams are exactly the input datagrams that carried data, each with its own time, direction and data); packet-number "
-             "reconstruction and nonce are C16's theorems, the key schedule C15's. That the frames collected are the frames sent (header protection, key selection per "
-             "packet type and key phase, CRYPTO reassembly, CID matching, Retry, 0-RTT) has no theorem yet: it is decided by an independent RFC 9000/9001 reference sender "
-             "run through the implementation over every dimension of the quantifier, with the executable session model (dissector, TLS parser, session, builder, demultiplexer) "
+        text="Proof (partial): Coq theorems -- output side: C02_nothing_lost_or_added (the payloads written are, concatenated, exactly the data of the collected frames in "
+             "order), C02_per_direction (each direction receives exactly its own frames' data), C02_one_output_per_input_datagram (capture times pairwise distinct: the non-empty "
+             "output datagrams are exactly the input datagrams that carried data, each with its own time, direction and data); key updates: C02_key_phase_client / _server (as "
+             "long as a direction's key generation grows by at most one from one captured 1-RTT packet to the next, the session selects exactly the sender's generation, whoever "
+             "initiates and however the directions interleave; the generations are key_update's, RFC 9001 6.1 by C15); CRYPTO ordering: C02_crypto_frames_any_order (a flight cut "
+             "into CRYPTO frames at any points and captured in ANY order is reassembled to exactly the flight); packet-number reconstruction and nonce are C16's theorems, the "
+             "key schedule C15's. NOT proved: header-protection removal, packet parsing, key selection per packet type, CID matching, Retry, 0-RTT, frame dispatch end to end: "
+             "decided by an independent RFC 9000/9001 reference sender run through the implementation over every dimension of the quantifier, with the executable session model "
              "tied to the implementation by byte-exact output correspondence. One open finding (0-RTT with another suite offered first).",
         note="Trusted: Coq kernel; hand-written QUIC models tied by byte-exact correspondence (reference connections, all shipped QUIC captures); tools/ref/quic_ref.py as the oracle "
              "of the search; timestamps: the reader's float identity is an input of the model; extraction/driver/crypto pipe oracle.",
-        technique="Coq proof (grouping lemmas by induction over frame runs) + reference-sender search over the quantifier + byte-exact model/implementation correspondence",
-        design="3 C02"),
-    "C06": dict(
-        text="Proof (TLS conversation, splitting, TCP/IPv4 frame validity; rest by strict read-back): Coq theorems C06_conversation (a non-empty export is a three-way handshake "
-             "followed by segments that the standard reassembler of Spec/Reader.v reads back as exactly the exported streams: gap-free, non-overlapping, consistent "
-             "acknowledgements), C06_splitting (a record carried by k packets is re-split into at most k parts whose concatenation is the record), C06_tcp_checksum and "
-             "C06_ipv4_header (the frame model's TCP checksum and IPv4 header verify, lengths correct). UDP/IPv6 frames, the pcapng block layout and the empty-session cases are "
-             "decided by an independent strict pcapng reader, frame validator and TCP reassembler on the implementation's output for healthy and damaged captures under "
-             "rotating option sets, with byte-exact model/implementation correspondence.",
-        note="Trusted: Coq kernel; scapy/dpkt serialisation modelled (Model/Frames.v, PcapngWriter.v) and tied by byte-exact correspondence; tools/ref/readback.py.",
-        technique="Coq proof (builder invariant, one's-complement arithmetic) + strict independent read-back of every output",
-        design="3 C06"),
-    "C07": dict(
-        text="Proof: Coq theorems C07_provenance (a record's metadata is exactly the set of buffered packets whose byte range intersects the record's), C07_times_and_direction "
-             "(handshake stamped with the first carrier of the first exported record; every segment stamped with a carrier of its own record and flowing in the record's "
-             "direction), C07_addressing (every frame goes from the sender's MAC/IP/port to the receiver's, IP version of the flow), C07_roles (roles fixed by the flow's first "
-             "packet); QUIC times and directions are C02_one_output_per_input_datagram. Closed under the global context. The check compares every exported frame of reference "
-             "captures with the endpoints and the exact overlap set of its record.",
-        note="Trusted: Coq kernel; models tied by byte-exact correspondence; timestamps are the reader's floats (microsecond value and float identity computed by the harness).",
-        technique="Coq proof (overlap characterisation, builder invariant) + per-frame provenance oracle on reference captures",
-        design="3 C07"),
-    "C13": dict(
-        text="Proof: Coq theorems C13_traffic (what a TLS session hands to the builder without -a is what it hands over with -a minus the entries only -a adds; no cipher state "
-             "depends on the option), C13_only_adds (the data segments written without -a are, payload for payload and in order, a subsequence of those written with -a), "
-             "C13_hello_verbatim (every handshake record, the hellos among them, is emitted verbatim as an entry of its own), C13_quic (per direction the bytes exported without -a "
-             "are the STREAM data; with -a the same frames' data with CRYPTO data in between, in frame order). Closed under the global context.",
-        note="Trusted: Coq kernel; models tied by byte-exact correspondence at both settings of the option.",
-        technique="Coq proof (filtering commutes with the session fold and the builder) + paired exports with and without -a",
-        design="3 C13"),
-    "C09": dict(
-        text="Proof: Coq theorems over a model of keylog_reader.get_keys_from_string and of run(): C09_line_ends (the keys of a text are the keys of its lines, LF or CRLF), "
-             "C09_decorations / C09_comment / C09_blank (lines that are not 'LABEL random secret' contribute nothing wherever they stand), C09_hex_case (upper- or lower-case "
-             "hex digits give the same key), C09_order_and_duplicates_tls13 / C09_order_and_duplicates_quic (the derivations take the last line per label: two logs with the same "
-             "lines in any order and with any repetitions, each label's lines agreeing, give the same keys), C09_first_line / C09_duplicates_first_line (TLS <= 1.2 uses the "
-             "first line of the connection), C09_blocks_in_front (secrets in one or several decryption-secrets blocks in front of the packets = the same secrets in a file, "
-             "for any traffic, also as the only source), C09_blocks_anywhere_tls (for TLS over TCP the blocks may stand anywhere). Closed under the global context. The text "
-             "model is tied to the code by correspondence on structured and near-miss texts; ten ways of supplying the same secrets must give byte-identical exports.",
-        note="Trusted: Coq kernel; key-log text is ASCII; pcapng block framing of DSBs is C12's reader model; open()/decode and working-directory independence are exercised "
-             "by the check only.",
-        technique="Coq proof (line splitting lemmas, deterministic regex matcher, closed form of the last-wins loops, folds that only append to the key log) + byte-identical exports under ten supplies",
-        design="I.4 C09"),
-    "C10": dict(
-        text="Proof: Coq theorems C10_only_watched_ports / C10_session_on_watched_port (a TCP packet that belongs to no session opens one iff one of its ports is a default or "
-             "-p port; roles by C07_roles), C10_exported_ports_tls / C10_exported_ports_quic (client port never changed; server port original without -m, mapped for listed "
-             "ports and 8080 otherwise with -m -- the same rule for both builders), C10_command_line (any sequence of '-p v+', '-m v*' and other options: watched ports = "
-             "443, 44330, 443 and every -p value in order; map from the last -m, bare -m = 443:8080; original ports kept iff no -m), C10_trailing_comma, and "
-             "C10_source_constants tying the constants regenerated from main.py and both builders (default lists, nargs, action, 8080) to the model. Closed under the global context.",
-        note="Trusted: Coq kernel; argparse modelled for the -p/-m part (option/value tokens, decimal digit strings) and tied to the real arg_parser_init + get_port_map by "
-             "correspondence on well-formed and malformed command lines; py2coq G1 constants.",
-        technique="Coq proof (fold over option groups) + command-line correspondence + end-to-end port oracle computed from the raw argv",
-        design="3 C10"),
+        technique="Coq proof (grouping lemmas over frame runs; invariant of the key-generation list; sorted-insertion/consume invariant of the CRYPTO stream) + reference-sender search + byte-exact correspondence",
+        design="I.4 C02"),
     "C03": dict(
         text="Proof (partial): Coq theorems C03_isolation (delete, corrupt, shorten or replace any packets of OTHER flows, add any foreign traffic: the sessions of a flow, "
              "hence by C04_output_is_union its export, are unchanged -- for every capture), C03_reading_total (without -c no packet, however damaged, can make the reading "
